@@ -346,6 +346,39 @@ def gen_and_run(prop, harness_bin, flavor, gen, seed, tier, header, tag):
     return res
 
 
+def leakcheck(prop, res, tag):
+    """allocation-level oracle: after a warm-up, re-running the whole session must not change the
+    number of live heap bytes.  Returns None when clean, else a dict with a (bisected) replay."""
+    hb, workdir = res["_harness"], res["_workdir"]
+    lines, cases, session = res["_lines"], res["_cases"], res["_session"]
+
+    def leaks(ls):
+        f = os.path.join(workdir, "leak.txt")
+        with open(f, "w") as fh:
+            fh.write("\n".join(ls) + "\n")
+        rc, out = sh([hb, "leakcheck", f], timeout=3000)
+        try:
+            return json.loads(out.strip().split("\n")[-1])["net_bytes"]
+        except Exception:
+            return -1 if rc != 0 else 0
+    n = leaks(lines)
+    if n == 0:
+        return None
+    lo, hi = 0, len(cases)
+    while hi - lo > 1:
+        mid = (lo + hi) // 2
+        sub = [lines[i] for i in session if i < cases[lo][0]] + lines[cases[lo][0]:cases[mid - 1][1]]
+        if leaks(sub) != 0:
+            hi = mid
+        else:
+            lo = mid
+    rl = replay_lines(lines, session, cases[lo])
+    path = write_replay(prop, f"leak-{tag}-{lines[cases[lo][0]].replace(' ', '')}", rl,
+                        [f"allocation oracle: {n} net bytes per run of the session (flavor {res['flavor']}); "
+                         f"this case leaks {leaks(rl)} bytes per run"])
+    return {"net_bytes": n, "replay": path}
+
+
 def oracle_replay(prop, res, failure, tag):
     """cut + shrink the case of an oracle failure, return replay path"""
     lines, cases, session = res["_lines"], res["_cases"], res["_session"]
